@@ -1367,12 +1367,44 @@ def run_xm(ctx, R, cases):
     srd = R.harness(["rd %s %s" % (ALLSAVE, o[3:]) if o.startswith("ok ") else "-" for o in srcs], lambda i: cases[i])
     hl = ["xfm %d %s %s %s %s" % (c["sm"], c["flags"], hx(content(c["dstseed"], c["dsticc"])), o[3:], "b" if c.get("bufsize") else "n") if o.startswith("ok ") else "-" for c, o in zip(cases, srcs)]
     outs = R.harness(hl, lambda i: cases[i])
+    # Exact-size NOREALLOC buffers.  tj3TransformBufSize() promises room for the image plus ONE ICC profile (the source's when it is
+    # copied, else the instance's) "when no other extra markers are written".  So success with buffers of exactly that size is
+    # required only when (a) the MODEL's jpeg_read_icc_profile accepts the source's ICC marker set whenever APP2 markers are copied and
+    # (b) every marker a transform writes besides that profile is accounted for, i.e. there is none.  Otherwise only "success, or the
+    # clean 'too small' error" is required (no overrun: sanitizer build in the thorough tier); counted as xm_exact_size_not_required.
+    icc_lines, icc_idx = [], {}
+    for ci, (c, o) in enumerate(zip(cases, srcs)):
+        if c.get("bufsize") and o.startswith("ok "):
+            sg, _ = parse(bytes.fromhex(o[3:]))
+            hd = [s_ for s_ in sg[:next(i for i, s_ in enumerate(sg) if not is_appcom(s_[0]))]]
+            icc_idx[ci] = len(icc_lines)
+            icc_lines.append("iccms " + (",".join("%d:%s" % (code, d.hex()) for code, d in hd) or "-"))
+    icc_model = R.model(icc_lines)
+
+    def exact_size_required(ci, c):
+        m = icc_model[icc_idx[ci]] if ci in icc_idx else None
+        sg, _ = parse(bytes.fromhex(srcs[ci][3:]))
+        hd = [s_ for s_ in sg[:next(i for i, s_ in enumerate(sg) if not is_appcom(s_[0]))]]
+        for fl in c["flags"]:
+            eopt = 0 if fl == "1" else c["sm"]
+            copied = [(code, d) for code, d in hd[1:] if policy(eopt, code)]          # hd[0] is the library's own JFIF / Adobe marker
+            if any(code != 0xE2 or not is_icc(code, d) for code, d in copied):
+                return False          # other extra markers are written: outside the size promise
+            if copied and not (m or "").startswith("icc ok"):
+                return False          # the copied APP2 markers are not a profile jpeg_read_icc_profile accepts (model)
+        return True
     ml, meta, hl2, meta2, bl, bmeta, yl, ymeta = [], [], [], [], [], [], [], []
     for ci, (c, o, h) in enumerate(zip(cases, outs, srd)):
         if not srcs[ci].startswith("ok ") or not h.startswith("hdr"):
             continue
+        if c.get("bufsize"):
+            req = exact_size_required(ci, c)
+            ctx.count("xm_exact_size_required" if req else "xm_exact_size_not_required", 1, ("xmsz", req, c["sm"], c["flags"]))
+            ctx.cov["xm_exact_size_not_required"] = ctx.cov.get("xm_exact_size_not_required", 0) + (0 if req else 1)
+            if not o.startswith("ok ") and not req and "too_small" in o:
+                continue              # the clean error, outside the size promise
         if not o.startswith("ok "):
-            ctx.violation("tj3Transform with %d transforms failed%s: %s" % (len(c["flags"]), " (buffers of tj3TransformBufSize() bytes, TJPARAM_NOREALLOC)" if c.get("bufsize") else "", o[:160]),
+            ctx.violation("tj3Transform with %d transforms failed%s: %s" % (len(c["flags"]), " (buffers of tj3TransformBufSize() bytes, TJPARAM_NOREALLOC; one ICC profile and no other extra marker)" if c.get("bufsize") else "", o[:160]),
                           {"case": c}, signature="xm-failed" + ("-bufsize" if "noreal" in o else ""))
             continue
         kv = dict(x.split("=", 1) for x in h.split() if "=" in x)
